@@ -88,3 +88,31 @@ pub fn is_front_end_failure(o: &Outcome) -> Option<String> {
         _ => None,
     }
 }
+
+/// Symptom of the recorded checker defect KF-C02-01: a record VALUE whose reported type is an open
+/// row (`forall a . { x : Int | a }`).  The row stayed open when it met a closed record and keeps
+/// the open row's field order, so reading the value by its type finds other fields.
+pub fn open_row_result_symptom(out: &Outcome) -> bool {
+    let ty_text = match out {
+        Outcome::Value { ty, .. } | Outcome::BadShape { ty, .. } => ty.replace('\n', " "),
+        _ => return false,
+    };
+    let t = ty_text.trim();
+    if !t.starts_with("forall") {
+        return false;
+    }
+    match t.find(" . ") {
+        Some(p) => {
+            let body = t[p + 3..].trim();
+            body.starts_with('{')
+                && body.ends_with('}')
+                && body.contains('|')
+                && body
+                    .rsplit('|')
+                    .next()
+                    .map(|x| x.trim().trim_end_matches('}').trim().chars().all(|c| c.is_alphanumeric()))
+                    .unwrap_or(false)
+        }
+        None => false,
+    }
+}
